@@ -1113,7 +1113,7 @@ class ClientRequest(ClientRequestBase):
         self._update_proxy(proxy, proxy_headers)
 
         self._update_body_from_data(data)
-        if data is not None or self.method not in self.GET_METHODS:
+        if data is not None or self.chunked or self.method not in self.GET_METHODS:
             self._update_transfer_encoding()
         self._update_expect_continue(expect100)
         self._traces = traces
@@ -1297,7 +1297,7 @@ class ClientRequest(ClientRequestBase):
         self._update_body_from_data(body)
 
         # Update transfer encoding headers if needed (same logic as __init__)
-        if body is not None or self.method not in self.GET_METHODS:
+        if body is not None or self.chunked or self.method not in self.GET_METHODS:
             self._update_transfer_encoding()
 
     async def update_body(self, body: Any) -> None:
